@@ -114,7 +114,7 @@ impl serde::Serialize for Value {
             Value::Duration(d) => serializer.serialize_str(d.to_string().as_str()),
             Value::Obj(map) => {
                 let mut m = serializer.serialize_map(Some(map.len()))?;
-                for (k, v) in map {
+                for (k, v) in map.iter().sorted_by(|l, r| l.0.cmp(r.0)) {
                     m.serialize_entry(k, v)?;
                 }
                 m.end()
